@@ -53,7 +53,13 @@ def run(pid, args):
             if i is None:
                 continue
             # the model's leak verdict needs LSan/alloc accounting identical across binaries: compare everything
-            if i != m:
+            if var.startswith("valgrind"):
+                # valgrind is there for uninitialised reads (non-zero exit -> CRASH line); the driver's own
+                # allocation accounting is not meaningful under it
+                i_cmp, m_cmp = i.split("|")[0], m.split("|")[0]
+            else:
+                i_cmp, m_cmp = i, m
+            if i_cmp != m_cmp:
                 mism.append({"configuration": var, "program": p, "model": m[:3000], "impl": i[:3000],
                              "others": {w: (results[w][k] == m) for w in results if results[w][k] is not None}})
                 break
